@@ -44,107 +44,139 @@ func gsxNewChecker(name string) (*linter.Checker, *linter.Context) {
 	return c, ctx
 }
 
-// gsxVisit drives one visit of the checker's visitor on a lazily initialised
-// node: the walkers call the visitor once per node of the matching category,
-// so one visit on an arbitrary node of bounded depth covers every program
-// whose relevant neighbourhood fits the bound.
-func gsxVisit(name string) {
-	c, _ := gsxNewChecker(name)
+// gsxInput is one lazily initialised input for a checker's visitor.
+type gsxInput struct {
+	fn       *ast.FuncDecl
+	expr     ast.Expr
+	stmt     ast.Stmt
+	blk      *ast.BlockStmt
+	decl     *ast.FuncDecl
+	id       *ast.Ident
+	init     ast.Expr
+	namekind int
+	cg       *ast.CommentGroup
+	file     *ast.File
+}
+
+func gsxWalkerKind(c *linter.Checker) string {
+	return gsxrt.TypeName(gsxrt.Field(c, "fileWalker"))
+}
+
+func gsxFocus(c *linter.Checker) {
 	fw := gsxrt.Field(c, "fileWalker")
 	if v := gsxrt.Field(fw, "visitor"); v != nil {
 		gsxrt.FocusOn(v)
 	} else {
 		gsxrt.FocusOn(fw)
 	}
-	var fn *ast.FuncDecl
-	gsxrt.Lazy("fn", 1, &fn)
+}
+
+// gsxMakeInput creates the lazy input matching the checker's walker.
+func gsxMakeInput(c *linter.Checker) *gsxInput {
+	in := &gsxInput{}
 	k := gsxrt.Bound("K", 3)
+	gsxrt.Lazy("fn", 1, &in.fn)
+	switch gsxWalkerKind(c) {
+	case gsxWalkPkg + "exprWalker", gsxWalkPkg + "localExprWalker", gsxWalkPkg + "typeExprWalker":
+		gsxrt.Lazy("x", k, &in.expr)
+	case gsxWalkPkg + "stmtWalker":
+		gsxrt.Lazy("x", k, &in.stmt)
+	case gsxWalkPkg + "stmtListWalker":
+		gsxrt.Lazy("x", k, &in.blk)
+	case gsxWalkPkg + "funcDeclWalker":
+		gsxrt.Lazy("x", k, &in.decl)
+	case gsxWalkPkg + "localDefWalker":
+		gsxrt.Lazy("x", k, &in.id)
+		gsxrt.Lazy("init", k, &in.init)
+		in.namekind = gsxrt.IntRange("namekind", 0, 2)
+	case gsxWalkPkg + "commentWalker", gsxWalkPkg + "localCommentWalker", gsxWalkPkg + "docCommentWalker":
+		gsxrt.Lazy("x", k, &in.cg)
+	default:
+		gsxrt.Lazy("file", k, &in.file)
+	}
+	return in
+}
+
+// gsxApply performs one visit of c's visitor on the input.
+func gsxApply(c *linter.Checker, in *gsxInput) {
+	fw := gsxrt.Field(c, "fileWalker")
 	switch gsxrt.TypeName(fw) {
 	case gsxWalkPkg + "exprWalker":
 		v := gsxrt.Field(fw, "visitor").(astwalk.ExprVisitor)
-		if v.EnterFunc(fn) {
-			var x ast.Expr
-			gsxrt.Lazy("x", k, &x)
+		if v.EnterFunc(in.fn) {
 			gsxrt.Reached("visit")
-			v.VisitExpr(x)
+			v.VisitExpr(in.expr)
 		}
 	case gsxWalkPkg + "localExprWalker":
 		v := gsxrt.Field(fw, "visitor").(astwalk.LocalExprVisitor)
-		if v.EnterFunc(fn) {
-			var x ast.Expr
-			gsxrt.Lazy("x", k, &x)
+		if v.EnterFunc(in.fn) {
 			gsxrt.Reached("visit")
-			v.VisitLocalExpr(x)
+			v.VisitLocalExpr(in.expr)
 		}
 	case gsxWalkPkg + "stmtWalker":
 		v := gsxrt.Field(fw, "visitor").(astwalk.StmtVisitor)
-		if v.EnterFunc(fn) {
-			var x ast.Stmt
-			gsxrt.Lazy("x", k, &x)
+		if v.EnterFunc(in.fn) {
 			gsxrt.Reached("visit")
-			v.VisitStmt(x)
+			v.VisitStmt(in.stmt)
 		}
 	case gsxWalkPkg + "stmtListWalker":
 		v := gsxrt.Field(fw, "visitor").(astwalk.StmtListVisitor)
-		if v.EnterFunc(fn) {
-			var blk *ast.BlockStmt
-			gsxrt.Lazy("x", k, &blk)
+		if v.EnterFunc(in.fn) {
 			gsxrt.Reached("visit")
-			v.VisitStmtList(blk, blk.List)
+			v.VisitStmtList(in.blk, in.blk.List)
 		}
 	case gsxWalkPkg + "funcDeclWalker":
 		v := gsxrt.Field(fw, "visitor").(astwalk.FuncDeclVisitor)
-		var x *ast.FuncDecl
-		gsxrt.Lazy("x", k, &x)
-		if v.EnterFunc(x) {
+		if v.EnterFunc(in.decl) {
 			gsxrt.Reached("visit")
-			v.VisitFuncDecl(x)
+			v.VisitFuncDecl(in.decl)
 		}
 	case gsxWalkPkg + "typeExprWalker":
 		v := gsxrt.Field(fw, "visitor").(astwalk.TypeExprVisitor)
-		if v.EnterFunc(fn) {
-			var x ast.Expr
-			gsxrt.Lazy("x", k, &x)
+		if v.EnterFunc(in.fn) {
 			gsxrt.Reached("visit")
-			v.VisitTypeExpr(x)
+			v.VisitTypeExpr(in.expr)
 		}
 	case gsxWalkPkg + "localDefWalker":
 		v := gsxrt.Field(fw, "visitor").(astwalk.LocalDefVisitor)
-		if v.EnterFunc(fn) {
-			var id *ast.Ident
-			gsxrt.Lazy("x", k, &id)
-			var init ast.Expr
-			gsxrt.Lazy("init", k, &init)
+		if v.EnterFunc(in.fn) {
 			gsxrt.Reached("visit")
-			v.VisitLocalDef(astwalk.Name{ID: id, Kind: astwalk.NameKind(gsxrt.IntRange("namekind", 0, 2))}, init)
+			v.VisitLocalDef(astwalk.Name{ID: in.id, Kind: astwalk.NameKind(in.namekind)}, in.init)
 		}
 	case gsxWalkPkg + "commentWalker":
 		v := gsxrt.Field(fw, "visitor").(astwalk.CommentVisitor)
-		var cg *ast.CommentGroup
-		gsxrt.Lazy("x", k, &cg)
 		gsxrt.Reached("visit")
-		v.VisitComment(cg)
+		v.VisitComment(in.cg)
 	case gsxWalkPkg + "localCommentWalker":
 		v := gsxrt.Field(fw, "visitor").(astwalk.LocalCommentVisitor)
-		if v.EnterFunc(fn) {
-			var cg *ast.CommentGroup
-			gsxrt.Lazy("x", k, &cg)
+		if v.EnterFunc(in.fn) {
 			gsxrt.Reached("visit")
-			v.VisitLocalComment(cg)
+			v.VisitLocalComment(in.cg)
 		}
 	case gsxWalkPkg + "docCommentWalker":
 		v := gsxrt.Field(fw, "visitor").(astwalk.DocCommentVisitor)
-		var cg *ast.CommentGroup
-		gsxrt.Lazy("x", k, &cg)
 		gsxrt.Reached("visit")
-		v.VisitDocComment(cg)
+		v.VisitDocComment(in.cg)
 	default:
 		// checkers that implement FileWalker themselves: a whole (small) lazy file
-		var f *ast.File
-		gsxrt.Lazy("file", k, &f)
 		gsxrt.Reached("visit")
-		c.Check(f)
+		c.Check(in.file)
 	}
+}
+
+func gsxWarnings(c *linter.Checker) []linter.Warning {
+	return gsxrt.Field(gsxrt.Field(c, "ctx"), "warnings").([]linter.Warning)
+}
+
+// gsxVisit drives one visit of the checker's visitor on a lazily initialised
+// node: the walkers call the visitor once per node of the matching category,
+// so one visit on an arbitrary node of bounded depth covers every program
+// whose relevant neighbourhood fits the bound.
+func gsxVisit(name string) {
+	c, _ := gsxNewChecker(name)
+	gsxFocus(c)
+	in := gsxMakeInput(c)
+	gsxApply(c, in)
 	gsxCheckWarnings(c)
 }
 
@@ -152,8 +184,7 @@ func gsxVisit(name string) {
 // position taken from a token of the analysed file, a non-inverted fix
 // range inside the file, a non-empty message.
 func gsxCheckWarnings(c *linter.Checker) {
-	ws := gsxrt.Field(gsxrt.Field(c, "ctx"), "warnings").([]linter.Warning)
-	for _, w := range ws {
+	for _, w := range gsxWarnings(c) {
 		gsxrt.Reached("warning")
 		gsxrt.Assert(w.Pos != token.NoPos, "pos: a diagnostic has no position")
 		gsxrt.Assert(gsxrt.IsInputPos(w.Pos), "pos: a diagnostic position is not the start of a token of the analysed file")
